@@ -61,6 +61,8 @@ func (se *SpecEnv) takeFacts(from int) string {
 }
 
 var noFactsEnv = os.Getenv("VERIF_NOFACTS") != ""
+var noHoistEnv = os.Getenv("VERIF_NOHOIST") != ""
+var noPatternsEnv = os.Getenv("VERIF_PATTERNS") == ""
 
 type specErr struct{ msg string }
 
@@ -498,9 +500,24 @@ func (se *SpecEnv) evalQuant(x *EQuant) T {
 			}
 		}
 	}
+	// hoist ground sub-expressions (memory reads that do not depend on the bound variables) out of the
+	// quantifier: they are evaluated once, named by a constant, and so become ground terms the solver
+	// can match frame axioms and other quantifiers against
+	bodyExpr := x.Body
+	hoisted := map[string]T{}
+	if se.st != nil && !noHoistEnv {
+		names := map[string]bool{}
+		for k := range nb {
+			names[k] = true
+		}
+		bodyExpr = se.hoistGround(bodyExpr, names, hoisted)
+	}
+	for k, v := range hoisted {
+		nb[k] = v
+	}
 	se.bound = nb
 	mark := len(se.facts)
-	body := se.evalBool(x.Body)
+	body := se.evalBool(bodyExpr)
 	se.bound = saved
 	lf := se.takeFacts(mark)
 	if lf != "true" {
@@ -510,9 +527,16 @@ func (se *SpecEnv) evalQuant(x *EQuant) T {
 		}
 	}
 	g := and(guards...)
+	var vnames []string
+	for _, d := range decl {
+		vnames = append(vnames, strings.Fields(strings.Trim(d, "()"))[0])
+	}
 	if x.Forall {
 		if g != "true" {
 			body = "(=> " + g + " " + body + ")"
+		}
+		if pat := choosePatterns(body, vnames); pat != "" && !noPatternsEnv {
+			return T{S: "(forall (" + strings.Join(decl, " ") + ") (! " + body + pat + "))", So: "Bool"}
 		}
 		return T{S: "(forall (" + strings.Join(decl, " ") + ") " + body + ")", So: "Bool"}
 	}
@@ -686,7 +710,7 @@ func (se *SpecEnv) evalIndex(x *EIndex) T {
 	if b.Ty != nil {
 		switch u := b.Ty.Underlying().(type) {
 		case *types.Slice:
-			addr := fmt.Sprintf("(elem (sarr %s) (+ (soff %s) %s))", b.S, b.S, i.S)
+			addr := fmt.Sprintf("(elem (sarr %s) (ix (soff %s) %s))", b.S, b.S, i.S)
 			r := T{S: se.c.loadWith(se.memOf, addr, u.Elem()), So: se.c.reg.SortOf(u.Elem()), Ty: u.Elem()}
 			if _, isStruct := u.Elem().Underlying().(*types.Struct); !isStruct {
 				se.note(r.S, u.Elem())
@@ -774,7 +798,7 @@ func (se *SpecEnv) evalAddr(e Expr) (string, types.Type) {
 		if b.Ty != nil {
 			switch u := b.Ty.Underlying().(type) {
 			case *types.Slice:
-				return fmt.Sprintf("(elem (sarr %s) (+ (soff %s) %s))", b.S, b.S, i.S), u.Elem()
+				return fmt.Sprintf("(elem (sarr %s) (ix (soff %s) %s))", b.S, b.S, i.S), u.Elem()
 			case *types.Pointer:
 				if arr, ok := u.Elem().Underlying().(*types.Array); ok {
 					return fmt.Sprintf("(elem %s %s)", b.S, i.S), arr.Elem()
@@ -1189,4 +1213,116 @@ func (se *SpecEnv) splitConjuncts(e Expr, depth int) []Expr {
 		}
 	}
 	return []Expr{e}
+}
+
+// mentionsAny: does e mention any of the given identifiers?
+func mentionsAny(e Expr, names map[string]bool) bool {
+	found := false
+	walkExpr(e, func(x Expr) {
+		if id, ok := x.(*EIdent); ok && names[id.Name] {
+			found = true
+		}
+		if q, ok := x.(*EQuant); ok {
+			_ = q
+		}
+	})
+	return found
+}
+
+func containsQuant(e Expr) bool {
+	found := false
+	walkExpr(e, func(x Expr) {
+		if _, ok := x.(*EQuant); ok {
+			found = true
+		}
+	})
+	return found
+}
+
+// hoistGround replaces maximal ground memory-reading sub-expressions by fresh names bound in out.
+func (se *SpecEnv) hoistGround(e Expr, bound map[string]bool, out map[string]T) Expr {
+	if e == nil {
+		return nil
+	}
+	hoistable := func(x Expr) bool {
+		switch y := x.(type) {
+		case *ESel, *EIndex:
+			return true
+		case *EUnary:
+			return y.Op == "*"
+		case *ECall:
+			switch y.Fn {
+			case "len", "cap", "old", "unbox", "root":
+				return true
+			}
+		}
+		return false
+	}
+	if hoistable(e) && !mentionsAny(e, bound) && !containsQuant(e) {
+		// package-qualified constants (pkg.Name) are not worth hoisting; evaluate and check the sort
+		var t T
+		ok := func() (ok bool) {
+			defer func() {
+				if r := recover(); r != nil {
+					if _, isSpec := r.(specErr); isSpec {
+						ok = false
+						return
+					}
+					panic(r)
+				}
+			}()
+			t = se.eval(e)
+			return true
+		}()
+		if ok && t.So != "Nil" && t.So != "Tuple" && strings.ContainsAny(t.S, " (") && (strings.Contains(t.S, "select") || strings.Contains(t.S, "_f")) {
+			name := se.c.declare(se.st, "hg", t.So)
+			se.st.assume("(= " + name + " " + t.S + ")")
+			se.c.counter++
+			key := fmt.Sprintf("hoisted$%d", se.c.counter)
+			out[key] = T{S: name, So: t.So, Ty: t.Ty}
+			return &EIdent{key}
+		}
+		return e
+	}
+	switch x := e.(type) {
+	case *ESel:
+		return &ESel{se.hoistGround(x.X, bound, out), x.F}
+	case *EIndex:
+		return &EIndex{se.hoistGround(x.X, bound, out), se.hoistGround(x.I, bound, out)}
+	case *ESlice:
+		return &ESlice{se.hoistGround(x.X, bound, out), se.hoistGround(x.Lo, bound, out), se.hoistGround(x.Hi, bound, out)}
+	case *ECall:
+		if x.Fn == "old" || x.Fn == "iserr" || x.Fn == "dyntype" || x.Fn == "unbox" || x.Fn == "implements" || x.Fn == "iface" {
+			// do not descend: their arguments are evaluated in a special mode / are literals
+			if x.Fn == "unbox" || x.Fn == "iface" {
+				r := &ECall{Fn: x.Fn, Args: append([]Expr{se.hoistGround(x.Args[0], bound, out)}, x.Args[1:]...)}
+				return r
+			}
+			return x
+		}
+		r := &ECall{Fn: x.Fn}
+		for _, a := range x.Args {
+			r.Args = append(r.Args, se.hoistGround(a, bound, out))
+		}
+		return r
+	case *EUnary:
+		if x.Op == "&" {
+			return x
+		}
+		return &EUnary{x.Op, se.hoistGround(x.X, bound, out)}
+	case *EBinary:
+		return &EBinary{x.Op, se.hoistGround(x.L, bound, out), se.hoistGround(x.R, bound, out)}
+	case *ECond:
+		return &ECond{se.hoistGround(x.C, bound, out), se.hoistGround(x.A, bound, out), se.hoistGround(x.B, bound, out)}
+	case *EQuant:
+		b2 := map[string]bool{}
+		for k := range bound {
+			b2[k] = true
+		}
+		for _, v := range x.Vars {
+			b2[v.Name] = true
+		}
+		return &EQuant{x.Forall, x.Vars, se.hoistGround(x.Body, b2, out)}
+	}
+	return e
 }
